@@ -13,25 +13,28 @@ MODELLED = ("storage/memory/storage.go (ReferenceStorage incl. CheckAndSetRefere
             "checkReferenceAndTruncate, Ref, Refs, RemoveRef (packed-refs first)/rewritePackedRefsWithoutRef, PackRefs (hash references only, symbolic ones stay loose), processLine over loose files "
             "(possibly empty) and packed-refs lines (possibly malformed); objects as a set (loose + packed), index/config/shallow/"
             "reflog files as values (Model/StorageAPI.v); spec: the abstract store (Spec/AStore.v st_step). One filesystem model "
-            "for every Options value and object format. Not modelled: Module storers, CountLooseRefs, alternates, HEAD "
-            "special-casing in Refs(), directory/file conflicts between reference names, concurrent access, I/O errors; peeled (^) lines of packed-refs "
+            "for every Options value and object format. Not modelled: Module storers, CountLooseRefs, alternates, directory/file conflicts between reference names, concurrent access, I/O errors; peeled (^) lines of packed-refs "
             "(no storer call writes them)")
 TRUSTED = [
     "C-impl: every case is run on storage/memory and on storage/filesystem (memfs / osfs) under several option sets by harness/cmd/c17 and compared with Model/StorageAPI.c17_run",
     "oracle: Model/StorageAPI.c17_spec_run (the abstract store) evaluated in Coq on every case; every backend must answer every call, and the final snapshot, as the abstract store does",
 ]
 ASSUMPTIONS = ["object ids determine type and size inside a case universe", "billy memfs / osfs behave like a filesystem"]
-RULE = ("case = list of storer API calls over 4 reference names x 6 objects (one of a non-storable type), run on memory + 2-3 filesystem "
+RULE = ("case = list of storer API calls over 6 reference names (incl. HEAD and a long branch name) x 6 objects (one of a non-storable type), run on memory + 2-3 filesystem "
         "option sets out of {memfs, osfs} x {ExclusiveAccess, UseInMemoryIdx, LargeObjectThreshold=1, cache size 0} x {sha1, sha256}; "
         "buckets refs / objs / misc / logs / mixed / targeted (CAS on absent ref, PackRefs with loose symbolic ref, pack-remove-set, "
-        "packfile + loose duplicates, reopen); non-trivial = at least one write; distinct by content")
+        "packfile + loose duplicates, reopen) + Set/CAS transitions over every pair of value kinds {hash, short symbolic, long symbolic} x "
+        "{loose, packed-only, HEAD} (14 sampled per quick run, all 42 in the thorough tier); non-trivial = at least one write; distinct by content")
 
-NAMES = ["refs/heads/a", "refs/heads/b", "refs/remotes/o/m", "refs/tags/t"]      # index order = directory walk order
+LONG = "refs/heads/" + "l" * 70          # "ref: <LONG>" is longer than a sha256 reference line
+NAMES = ["refs/heads/a", "refs/heads/b", "refs/remotes/o/m", "refs/tags/t", "HEAD", LONG]
+HEAD_IDX, LONG_IDX = 4, 5               # Model/StorageAPI.head_name = 4
 OBJS = [[3, b"blob zero".hex()], [3, b"b1".hex()], [2, b"".hex()],
         [1, b"tree 4b825dc642cb6eb9a060e54bf8d69288fbee4904\nauthor a <a@b> 1 +0000\ncommitter a <a@b> 1 +0000\n\nm\n".hex()],
         [4, b"object 0000000000000000000000000000000000000001\ntype commit\ntag x\ntagger a <a@b> 1 +0000\n\nt\n".hex()],
         [6, b"not storable".hex()]]
 NN, NO = len(NAMES), len(OBJS)
+assert NAMES[HEAD_IDX] == "HEAD"
 FS_OPTS = ["", "x", "i", "l", "c", "xi", "xl", "ilc", "xilc", "2", "x2", "il2"]
 WRITES = {"setref", "cas", "casnil", "delref", "setobj", "setidx", "setcfg", "setshallow", "applog", "dellog", "packrefs", "addpack"}
 
@@ -52,13 +55,13 @@ class Gen:
         k = pick_weighted(rng, [(5, "setref"), (3, "cas"), (1, "casnil"), (3, "getref"), (3, "iterrefs"), (2, "delref"), (2, "packrefs")])
         n = rng.randrange(NN)
         if k in ("setref", "casnil"):
-            v = rval(rng, 0.15 if self.risky else 0.0)
+            v = rval(rng, 0.2)
             self.refs[n] = v
             return [k, n, v]
         if k == "cas":
             if self.refs and (not self.risky or rng.random() < 0.7):
                 n = rng.choice(sorted(self.refs))
-            v = rval(rng, 0.0)
+            v = rval(rng, 0.25)         # hash -> symbolic and back: the encoded line changes length
             ov = self.refs.get(n, rval(rng, 0.0)) if rng.random() < 0.7 else rval(rng, 0.0)
             cur = self.refs.get(n)
             if cur is not None and (cur[0] == ov[0] == "s" or (cur[0] == "h" and cur == ov)):
@@ -151,8 +154,35 @@ class Main(Suite):
                               "ops": [list(o) for o in seq] + [["iterrefs"], ["iterobjs", 0]]})
         return cases
 
+    def transitions(self, rng, full):
+        """Set / CAS over every pair of value kinds {hash, short symbolic target, long symbolic target} x {loose,
+        packed-only, HEAD}: the new encoded reference line is shorter than, as long as or longer than the stored one;
+        a read and a listing afterwards, then the way back, a reopen and again a read and a listing"""
+        kinds = {"hash": lambda: ["h", rng.randrange(NO - 1)], "symshort": lambda: ["s", 0], "symlong": lambda: ["s", LONG_IDX]}
+        combos = [(pl, fk, tk, mode) for pl in ("loose", "packed", "head") for fk in kinds for tk in kinds for mode in ("set", "cas")
+                  if not (pl == "packed" and fk != "hash")]
+        if not full:
+            combos = rng.sample(combos, 14)
+        cases = []
+        for pl, fk, tk, mode in combos:
+            n = HEAD_IDX if pl == "head" else rng.choice([1, 2, 3])
+            fv, tv = kinds[fk](), kinds[tk]()
+            if fv == tv:
+                tv = ["h", (fv[1] + 1) % (NO - 1)] if fv[0] == "h" else ["h", 0]
+            ops = [["setref", n, fv]]
+            if pl == "packed":
+                ops.append(["packrefs"])
+            step = (lambda a, b: ["setref", n, b]) if mode == "set" else (lambda a, b: ["cas", n, b, n, a])
+            ops += [step(fv, tv), ["getref", n], ["iterrefs"], step(tv, fv), ["getref", n], ["iterrefs"], ["reopen"],
+                    ["getref", n], ["iterrefs"]]
+            if rng.random() < 0.5:
+                ops += [["packrefs"], ["getref", n], ["iterrefs"]]
+            cases.append({"bucket": "transition", "backends": self.backends(rng), "names": NAMES, "objs": OBJS, "ops": ops})
+        return cases
+
     def gen(self, rng, n, tier):
         cases = self.exhaustive(rng) if tier == "thorough" else []
+        cases += self.transitions(rng, full=tier == "thorough")
         buckets = [(4, "refs"), (3, "objs"), (2, "misc"), (2, "logs"), (4, "mixed"), (3, "targeted")]
         for _ in range(n):
             b = pick_weighted(rng, buckets)
